@@ -19,8 +19,9 @@ RULE = ('cases = generated histories through DB/Connection (changes, creations, 
         'after close + reopen from the historical pool); writes through it must fail and store nothing; bounds beyond the '
         'newest transaction must raise ValueError; evaluations = bounds checked; non-trivial = a bound strictly inside the '
         'history at which >= 1 object differs from its current state, re-read after a later commit; distinct by (case hash, bound)')
-ASSUMPTIONS = ['datetime bounds are chosen >= 100 ms away from any transaction time', 'bounds older than the last pack are not generated']
-BUDGET = {'quick': {'examples': 800, 'workers': 8},
+ASSUMPTIONS = ['datetime bounds are chosen >= 100 ms away from any transaction time',
+               'after the pack, historical points older than the pack time are closed without being judged again']
+BUDGET = {'quick': {'examples': 2500, 'workers': 8},
           'thorough': {'examples': 8000, 'workers': 16}}
 
 NAMES = ['a', 'b', 'c', 'd']
@@ -37,9 +38,11 @@ def strategy(tier):
         st.tuples(st.just('remove'), name),
         st.tuples(st.just('undo'), st.integers(0, 3)),
         st.tuples(st.just('setx'), st.integers(1, 9)),
+        st.tuples(st.just('setblob'), st.integers(1, 9)),
     ).map(list)
     return st.fixed_dictionaries({
-        'kind': st.sampled_from(['fs', 'fs', 'mapping']),
+        # fsb: FileStorage with a blob directory, bfs: the blob wrapper around a FileStorage - both with a blob object
+        'kind': st.sampled_from(['fs', 'fs', 'mapping', 'fsb', 'bfs']),
         'history': st.lists(op, min_size=2, max_size=n),
         'later': st.lists(op, min_size=1, max_size=3),
         'pack_at': st.integers(0, 3),
@@ -68,8 +71,14 @@ class Hist:
         if multi:
             self.databases = {}
             kw = {'databases': self.databases, 'database_name': 'main'}
-        self.db = ZODB.DB(FileStorage(os.path.join(d, 'Data.fs')) if kind == 'fs' else MappingStorage(),
-                          historical_pool_size=2, **kw)
+        if kind == 'fsb':
+            storage = FileStorage(os.path.join(d, 'Data.fs'), blob_dir=os.path.join(d, 'blobs'))
+        elif kind == 'bfs':
+            from ZODB.blob import BlobStorage
+            storage = BlobStorage(os.path.join(d, 'blobs'), FileStorage(os.path.join(d, 'Data.fs')))
+        else:
+            storage = FileStorage(os.path.join(d, 'Data.fs')) if kind == 'fs' else MappingStorage()
+        self.db = ZODB.DB(storage, historical_pool_size=2, **kw)
         self.db2 = None
         self.tm = transaction.TransactionManager()
         self.conn = self.db.open(self.tm)
@@ -77,6 +86,11 @@ class Hist:
         self.oids = {}
         self.txns.append((self.db.storage.lastTransaction(), {'root': ()}))
         clock.CLOCK.advance(1.0)
+        if kind in ('fsb', 'bfs'):
+            from ZODB.blob import Blob
+            self.conn.root()['B'] = Blob(b'blob-0')
+            self.tm.commit()
+            self.record({'B': {'blob': b'blob-0'}, 'root': ('B',)})
         if multi:
             from vlib.vclasses import Node
             self.db2 = ZODB.DB(FileStorage(os.path.join(d, 'Other.fs')) if multi == 'fs' else MappingStorage(),
@@ -90,7 +104,7 @@ class Hist:
             self.record({'x': {'v': 1}})
             self.conn.root()['x'] = x          # cross-database reference
             self.tm.commit()
-            self.record({'root': ('x',)})
+            self.record({'root': tuple(sorted(set(self.state()['root']) | {'x'}))})
 
     def wrap_in_demo(self):
         import ZODB
@@ -149,6 +163,15 @@ class Hist:
             self.tm.commit()
             self.record(w)
             return True
+        if k == 'setblob':
+            if self.kind not in ('fsb', 'bfs') or 'B' not in cur['root'] or cur.get('B') is ABSENT:
+                return False
+            data = b'blob-%d-%d' % (op[1], len(self.txns))
+            with root['B'].open('w') as f:
+                f.write(data)
+            self.tm.commit()
+            self.record({'B': {'blob': data}})
+            return True
         if k == 'setx':
             if not self.multi:
                 return False
@@ -177,7 +200,7 @@ class Hist:
             # the object itself is not written: it stays in the storage, unreachable
             self.record({'root': tuple(sorted(set(cur['root']) - {name}))})
             return True
-        if k == 'undo' and self.kind == 'fs' and not self.multi:      # (not after wrap_in_demo: kind changes)
+        if k == 'undo' and self.kind in ('fs', 'fsb', 'bfs') and not self.multi:      # (not after wrap_in_demo: kind changes)
             from ZODB.POSException import UndoError
             import base64
             log = self.db.undoLog(0, 10)
@@ -186,7 +209,7 @@ class Hist:
             e = log[op[1] % len(log)]
             tid = base64.decodebytes(e['id'] + b'\n')
             idx = [i for i, t in enumerate(self.txns) if t[0] == tid]
-            if not idx or idx[0] == 0:
+            if not idx or idx[0] == 0 or (self.kind in ('fsb', 'bfs') and idx[0] <= 1):
                 return False
             try:
                 self.db.undo(e['id'], self.tm.get())
@@ -222,6 +245,10 @@ def read_hist(conn):
         if n.startswith('_'):
             continue
         o = root[n]
+        if n == 'B':
+            with o.open('r') as f:
+                out[n] = {'blob': f.read()}
+            continue
         o._p_activate()
         out[n] = {'v': o.v}
     return out
@@ -324,15 +351,29 @@ def execute(case):
                 out.fail((PROPERTY, 'live-connection', 'differs-from-model'),
                          'applying %r on the live connection raised %r (model root: %r)' % (op, e, h.state().get('root')))
                 return done(out, nt)
+        packed_upto = None
         if case['do_pack'] and len(tids) > 1:
-            # pack to a time not later than the oldest bound still in use is outside the statement;
-            # pack to before the first object transaction: removes nothing a bound needs
+            # pack (with the storage's garbage collection) to right after a generated transaction of the history:
+            # historical points older than that are outside the statement from now on, all others must be unaffected
+            pk = tids[case['pack_at'] % len(tids)]
             try:
-                h.db.pack(TimeStamp(tids[0]).timeTime() + 0.001)
+                h.db.pack(TimeStamp(pk).timeTime() + 0.001)
                 out.label('pack-while-open')
+                packed_upto = pk
+                if pk != tids[0]:
+                    out.label('pack-inside-the-history')
             except Exception as e:
-                if type(e).__name__ not in ('FileStorageError',):
+                # (DemoStorage.pack over changes wrapped for blobs re-raises a TypeError: nothing is packed - obs. 6)
+                if type(e).__name__ not in ('FileStorageError',) and not (isinstance(e, TypeError) and 'gc' in str(e)):
                     raise
+        if packed_upto is not None:
+            still = []
+            for item in opened:
+                if item[2] <= packed_upto:
+                    item[3].close()         # (snapshot older than the pack time: not judged any more)
+                else:
+                    still.append(item)
+            opened = still
         for kind, arg, before, hc, tm_h, exp in opened:
             out.evals += 1
             got = read_hist(hc)
@@ -399,7 +440,7 @@ def execute(case):
             # get a connection of its own
             j = len(opened) and (u64(before) % len(tids))
             t3 = TimeStamp(tids[j]).timeTime() + 0.25
-            if t3 < TimeStamp(tids[-1]).timeTime():
+            if t3 < TimeStamp(tids[-1]).timeTime() and (packed_upto is None or tids[j] >= packed_upto):
                 dt3 = datetime.datetime.fromtimestamp(t3, datetime.timezone.utc).replace(tzinfo=None)
                 hc3 = h.db.open(transaction.TransactionManager(), at=dt3)
                 got = read_hist(hc3)
